@@ -529,6 +529,56 @@ class C25(Property):
             meta.append(("BaseConnector.run history", sample))
         return lines, expect, meta
 
+    # ---- (6a) large outputs through the process-per-command paths ------------------------------------------------------
+    def large_output_case(self, ctx: Ctx, path: str, size: int, rc: int, newline: bool, bound: float = 45.0) -> dict:
+        """`path` = local (LocalConnector.run) | direct (BaseConnector.run with a job name: create_command + run_in_subprocess)"""
+        self.nfile += 1
+        f = os.path.join(ctx.scratch, f"big{self.gen}_{self.nfile}.txt")
+        line = b"0123456789abcdefghijklmnopqrstuvwxyzABCDEFGHIJKLMNOPQRSTUVWXYZ-+\n"
+        data = (line * (size // len(line) + 1))[:size]
+        data = data[:-1] + (b"\n" if newline else b"#")
+        with open(f, "wb") as fh:
+            fh.write(data)
+        script = f[:-4] + ".sh"
+        with open(script, "w") as fh:
+            fh.write(f"cat {shlex.quote(f)}\nexit {rc}\n")
+
+        async def go():
+            if path == "local":
+                conn = LocalConnector("local", ctx.scratch)
+                return await conn.run(mini_location(MiniConnector()), ["sh", script], capture_output=True, timeout=bound)
+            conn = MiniConnector()
+            try:
+                return await conn.run(mini_location(conn), ["sh", script], capture_output=True, timeout=bound, job_name="direct")
+            finally:
+                await conn.undeploy(False)
+        res = {"path": path, "size": size, "rc": rc, "newline": newline}
+        try:
+            out, status = run_watchdog(go, bound + 30)
+            res.update(status=status, returned=len(out), complete=(out == data.decode().strip()))
+        except Hang as e:
+            res.update(hang=str(e))
+        except asyncio.TimeoutError:
+            res.update(hang=f"TimeoutError after {bound}s (the command itself takes milliseconds)")
+        except Exception as e:  # noqa: BLE001
+            res.update(exception=f"{type(e).__name__}: {str(e)[:120]}")
+        return res
+
+    def large_output_cases(self, ctx: Ctx, plan: list[tuple]) -> None:
+        for path, size, rc, newline in plan:
+            if ctx.out_of_time():
+                ctx.extra["incomplete"] = True
+                break
+            res = self.large_output_case(ctx, path, size, rc, newline)
+            ctx.case({"op": "large-output", **res}, ("large-output", path, size, rc, newline), f"large-output:{path}:{size >> 10}KiB")
+            replay = {"op": "large-output", "path": path, "size": size, "rc": rc, "newline": newline}
+            if res.get("hang"):
+                ctx.fail(f"large-output:{path}:command-does-not-return-its-complete-output",
+                         f"{path} path, output of {size} bytes (exit {rc}, {'with' if newline else 'no'} trailing newline): run() does not return: {res['hang']}", replay)
+            elif res.get("exception") or not res.get("complete") or res.get("status") != rc:
+                ctx.fail(f"large-output:{path}:incomplete-output-or-wrong-status",
+                         f"{path} path, output of {size} bytes (exit {rc}): {res}", replay)
+
     # ---- (6) output equivalence: persistent shell vs fresh process ------------------------------------------------------
     def output_cases(self, ctx: Ctx, n: int):
         rng = ctx.rng
@@ -601,10 +651,14 @@ class C25(Property):
         l2, e2, m2 = self.framing_cases(ctx, 400 if big else 90)
         lines, expect, meta = lines + l2, expect + e2, meta + m2
         self.lexer_cases(ctx, 1500 if big else 250)
-        self.exec_cases(ctx, 300 if big else 24)
+        self.exec_cases(ctx, 300 if big else 16)
         l3, e3, m3 = self.policy_cases(ctx, 12 if big else 3, 4 if big else 2)
         lines, expect, meta = lines + l3, expect + e3, meta + m3
         self.output_cases(ctx, 40 if big else 6)
+        plan = [("local", 256 << 10, 3, False), ("direct", 256 << 10, 0, True), ("local", 1 << 20, 0, True), ("direct", 1 << 20, 7, False)]
+        if big:
+            plan += [(p, sz, rc, nl) for p in ("local", "direct") for sz, rc, nl in ((128 << 10, 1, True), (192 << 10, 0, False), (200 << 10, 0, True), (4 << 20, 2, False))]
+        self.large_output_cases(ctx, plan)
         got = ctx.lean("Drivers/C25.lean", lines)
         for g, e, m in zip(got, expect, meta):
             if g != e:
@@ -628,6 +682,11 @@ class C25(Property):
             want = (bytes.fromhex(r["out_hex"]).decode("utf-8", "replace").strip(), r["rc"])
             if real != want:
                 ctx.fail("framing:wrong-result", f"got {real!r}, expected {want!r}", r)
+        elif r.get("op") == "large-output":
+            res = self.large_output_case(ctx, r["path"], r["size"], r["rc"], r["newline"])
+            print("real :", res)
+            if res.get("hang") or res.get("exception") or not res.get("complete") or res.get("status") != r["rc"]:
+                ctx.fail("large-output", f"run() does not return the complete output and status: {res}", r)
         elif r.get("op") == "policy":
             obs = self.policy_case(ctx, r["seq"])
             print("real :", obs)
